@@ -2014,6 +2014,140 @@ def observations(ctx):
 
 
 # ---------------------------------------------------------------------------------------
+# (8) multi-step histories across float precisions (fresh process per history)
+# ---------------------------------------------------------------------------------------
+
+HISTORY_SCRIPT = r'''
+import sys, json, math, warnings
+sys.path.insert(0, sys.argv[1])
+warnings.simplefilter("ignore")
+import numpy as np
+import funsor, funsor.ops as ops
+from collections import OrderedDict
+from funsor.tensor import Tensor
+from funsor.einsum.numpy_log import einsum as log_einsum
+inf = math.inf
+seq = sys.argv[2].split(",")
+DT = {"f32": np.float32, "f64": np.float64, "f16": np.float16, "i64": np.int64, "i32": np.int32, "bool": np.bool_}
+fails = []
+count = [0]
+
+def rec(step, name, witness, expected, got):
+    fails.append(dict(step=step, name=name, witness=witness, expected=repr(expected), got=repr(got)))
+
+def close(g, e, tol):
+    g = np.asarray(g, dtype=np.float64); e = np.asarray(e, dtype=np.float64)
+    if g.shape != e.shape: return False
+    for a, b in zip(g.ravel().tolist(), e.ravel().tolist()):
+        if a == b or (a != a and b != b): continue
+        if math.isinf(a) or math.isinf(b) or a != a or b != b: return False
+        if abs(a - b) > tol * max(1.0, abs(b)): return False
+    return True
+
+def helpers(step, tag):
+    dt = DT[tag]; x = np.ones((2,), dtype=dt)
+    count[0] += 1
+    if dt in (np.float16, np.float32, np.float64):
+        fi, ni = ops.finfo(x), np.finfo(dt)
+        for attr in ("min", "max", "eps", "tiny", "bits"):
+            if getattr(fi, attr) != getattr(ni, attr):
+                rec(step, "finfo." + attr, dict(dtype=tag, history=seq[:step]), getattr(ni, attr), getattr(fi, attr))
+    if not ops.is_numeric_array(x): rec(step, "is_numeric_array", dict(dtype=tag), True, False)
+    for nm, got, want in (("new_zeros", ops.new_zeros(x, (2, 1)), np.zeros((2, 1), dtype=dt)),
+                          ("new_full", ops.new_full(x, (3,), 1), np.full((3,), 1, dtype=dt)),
+                          ("new_arange", ops.new_arange(x, 0, 4, 1), np.arange(0, 4, 1)),
+                          ("new_eye", ops.new_eye(x, (2,)), np.broadcast_to(np.eye(2), (2, 2))),
+                          ("full_like", ops.full_like(x, 1), np.full_like(x, 1))):
+        got = np.asarray(got)
+        if got.dtype != want.dtype or got.shape != want.shape or not (got == want).all():
+            rec(step, nm, dict(dtype=tag, history=seq[:step]), (str(want.dtype), want.tolist()), (str(got.dtype), got.tolist()))
+
+def boundary(step, tag):
+    dt = DT[tag]; fi = np.finfo(dt); fmax = float(fi.max); tol = 1e-5 if dt is np.float32 else 1e-12
+    mags = [1e30] if dt is np.float32 else [1e30, 1e100, 1e300]
+    A = lambda v: np.array(v, dtype=dt)
+    W = lambda **k: dict(dtype=tag, history=seq[:step], **k)
+    def chk(name, got, exp, **k):
+        count[0] += 1
+        if not close(got, exp, tol): rec(step, name, W(**k), np.asarray(exp, dtype=float).tolist(), np.asarray(got, dtype=float).tolist())
+    # clamp_finite
+    for m in mags:
+        t = Tensor(A([m, -m, inf, -inf, 0.5]), OrderedDict(i=funsor.Bint[5]))
+        chk("Tensor.clamp_finite", t.clamp_finite().data, [m, -m, fmax, -fmax, 0.5], magnitude=m)
+        # log-space einsum at the range boundary and at -inf
+        chk("log-einsum a,a->", log_einsum("a,a->", A([-m, -inf]), A([-m, -inf])), -2 * m, x=[-m, "-inf"], y=[-m, "-inf"])
+        chk("log-einsum ab->a", log_einsum("ab->a", A([[-m, -m], [-inf, -inf]])), [-m + math.log(2), -inf], x=[[-m, -m], ["-inf", "-inf"]])
+        chk("log-einsum ab,bc->ac", log_einsum("ab,bc->ac", A([[-m, -inf]]), A([[0.0, -inf], [5.0, 1.0]])), [[-m, -inf]], magnitude=m)
+        chk("logaddexp arr,arr", ops.logaddexp(A(-m), A(-m)), -m + math.log(2), a=-m, b=-m)
+        chk("logaddexp num,arr", ops.logaddexp(-m, A(-inf)), -m, a=-m, b="-inf")
+        chk("logaddexp arr,arr big", ops.logaddexp(A(m), A(-m)), m, a=m, b=-m)
+        chk("logsumexp", ops.logsumexp(A([-m, -m, -inf])), -m + math.log(2), x=[-m, -m, "-inf"])
+        chk("safesub", ops.safesub(A(-m), A(-inf)), float(dt(-m) + dt(fmax)), x=-m, y="-inf")
+    chk("logaddexp -inf,-inf", ops.logaddexp(A(-inf), A(-inf)), -inf)
+    chk("logsumexp all -inf", ops.logsumexp(A([-inf, -inf])), -inf)
+    chk("reciprocal(0)", ops.reciprocal(A(0.0)), fmax)
+    chk("safediv(0.5, 0)", ops.safediv(A(0.5), A(0.0)), float(dt(0.5) * dt(fmax)))
+    chk("safediv(0, 0)", ops.safediv(A(0.0), A(0.0)), 0.0)
+    chk("safesub(0, -inf)", ops.safesub(A(0.0), A(-inf)), fmax)
+    chk("max unit", ops.max(-inf, A([1.0, -2.0])), [1.0, -2.0])
+
+for step, tag in enumerate(seq):
+    try:
+        helpers(step, tag)
+        if tag in ("f32", "f64"):
+            boundary(step, tag)
+    except Exception as e:
+        if tag in ("f32", "f64"):
+            rec(step, "exception", dict(dtype=tag, history=seq[:step]), "no exception", type(e).__name__ + ": " + str(e)[:200])
+print("HISTORY-RESULT " + json.dumps(dict(fails=fails, checks=count[0])))
+'''
+
+HISTORIES = ["f32,f64,f32,i64,f64", "f64,f32,f64,bool,f32", "f16,f64,f32,f64", "f32,f32,f64", "i64,f32,f64,f16,f64"]
+
+
+def history_python(seq, f):
+    """self-contained replay: the warm-up steps of the history, then the failing step, in ONE fresh process"""
+    import textwrap
+    return ("import subprocess, sys, json, os\n"
+            f"SCRIPT = {HISTORY_SCRIPT!r}\n"
+            "import funsor\nrepo = os.path.dirname(os.path.dirname(os.path.abspath(funsor.__file__)))\n"
+            f"p = subprocess.run([sys.executable, '-c', SCRIPT, repo, {seq!r}], stdout=subprocess.PIPE, stderr=subprocess.PIPE, text=True)\n"
+            "line = [l for l in p.stdout.splitlines() if l.startswith('HISTORY-RESULT ')]\n"
+            "res = json.loads(line[0][15:]) if line else dict(fails=['crash: ' + p.stderr[-300:]])\n"
+            "print(res['fails'][:3])\nFAILS = bool(res['fails'])\n")
+
+
+def history_stream(ctx):
+    """Each history runs in a FRESH interpreter (module-level state such as a cache in funsor.ops must start
+    empty): helpers and the stabilised-op boundary grid on an interleaved dtype sequence — float32 first, float64
+    first, float16 first — every step compared with the answer for THAT dtype."""
+    import json
+    import subprocess
+    import os as _os
+    env = dict(_os.environ)
+    env.pop("PYTHONPATH", None)
+    for seq in HISTORIES:
+        p = subprocess.run([sys.executable, "-c", HISTORY_SCRIPT, str(REPO), seq], stdout=subprocess.PIPE,
+                           stderr=subprocess.PIPE, text=True, env=env, timeout=300)
+        line = [l for l in p.stdout.splitlines() if l.startswith("HISTORY-RESULT ")]
+        if not line:
+            ctx.infra_errors.append(f"history subprocess failed for {seq}: {p.stderr[-500:]}")
+            return
+        res = json.loads(line[0][len("HISTORY-RESULT "):])
+        ctx.count("history:sequences")
+        ctx.count("history:checks", res["checks"])
+        ctx.case(sample=dict(stream="history", sequence=seq, checks=res["checks"]), nontrivial_key=("history", seq))
+        seen = set()
+        for f in res["fails"]:
+            key = f["name"]
+            if key in seen:
+                continue
+            seen.add(key)
+            ctx.fail("input", f"C15.history:{f['name']}", witness=dict(sequence=seq, **f["witness"], step=f["step"]),
+                     expected=f["expected"], got=f["got"], python=history_python(seq, f))
+
+
+# ---------------------------------------------------------------------------------------
 # correspond / search
 # ---------------------------------------------------------------------------------------
 
@@ -2061,6 +2195,7 @@ def correspond(ctx):
             agreement_grid(ctx)
             special_grid(ctx)
     many_dim_stream(ctx, 3000 if big else 200)
+    history_stream(ctx)
     kf_stream(ctx)
     kf2_stream(ctx)
     observations(ctx)
@@ -2088,6 +2223,7 @@ def search(ctx, broken):
     n0 = sum(1 for f in ctx.failures if f.witness is not None and f.kind == "input")
     law_grid(ctx, volume=3, record=False)
     bool_semiring(ctx)
+    history_stream(ctx)
     for _ in range(3):
         agreement_grid(ctx, volume=2)
         dtype_grid_nodriver(ctx)
